@@ -38,6 +38,7 @@ type Knobs struct {
 	// Probabilities in percent
 	PAvail      int // param drawn from keys visible at the function's scope
 	PFresh      int // result drawn from keys not yet provided in the target scope
+	PEmptyGroup int // a Provide whose Group option has modifiers but no name (",flatten"): must be rejected
 	PShadow     int // result key drawn from keys that an ancestor scope already provides (shadowing)
 	POpt        int // single param is optional
 	PNamed      int // result is named
@@ -582,6 +583,13 @@ func (g *gen) errAndVariadic(f *Fn) {
 // ---------------------------------------------------------------------------
 
 func (g *gen) genProvide(s int) Op {
+	if g.pct(g.k.PEmptyGroup, "emptygroup") {
+		// a value group without a name would share its key with the plain
+		// unnamed value of the element type
+		f := g.newFn()
+		f.R = []Result{{T: g.pickStr(g.k.Types, "egt"), Slice: true, N: 1 + g.pick(2, "egn")}}
+		return Op{K: OpProvide, S: s, F: f, O: &Opts{Group: g.pickStr([]string{",flatten", ",flatten,flatten"}, "egv")}}
+	}
 	f := g.newFn()
 	o := &Opts{}
 	export := s != 0 && g.pct(g.k.PExport, "export")
